@@ -5,7 +5,7 @@
    field's shape, and one slot per oneof); it holds in every heap reachable from the empty heap by ANY history
    (reachable_shape_invariant), whatever operands the history chooses. Receivers are `PMsg (o_mid ob) (Some id)`:
    the valid message handle of object id. *)
-From CP Require Import Reflect ReflectLaws.
+From CP Require Import Reflect ReflectLaws RefReflect ReflectAbs ReflectRefine.
 From Coq Require Import Sorted.
 Local Open Scope nat_scope.
 
@@ -204,6 +204,39 @@ Theorem new_values_are_fresh : forall sch h o,
   forall id ob, get_obj h id = Some ob -> get_obj (fst (step sch h o)) id = Some ob.
 Proof. exact ReflectLaws.new_values_are_fresh. Qed.
 
+(* ---- refinement: the generated code implements the reference semantics of protoreflect ------------------------------
+   Model/RefReflect.v is the reference model (a message = finite map field -> populated value, no nil-vs-empty, oneof
+   members as ordinary entries, views as references to places; written from the protoreflect documentation and what
+   dynamicpb and the struct-based reflection agree on; validated against both on every history of a run: HISTREF lines).
+   abs / abs_out (Model/ReflectAbs.v) forget the Go representation. tidyb is the representation invariant of heaps built
+   through the API (no nil list elements / map values / wrapper payloads: states only a struct literal produces);
+   well_scopedb is the API contract needed: views used at their container's type, map keys of the key kind, no write
+   through a Map view whose field was cleared, and NOT passing the read-only message to Set of a oneof member /
+   List.Set / List.Append / Map.Set (the two reference implementations disagree there: unspecified). *)
+Theorem step_refines : forall sch, wf sch = true -> forall h o, tidyb sch h = true -> well_scopedb sch h o = true ->
+  abs_out (snd (step sch h o)) = snd (ref_step sch (abs sch h) o) /\
+  abs sch (fst (step sch h o)) = fst (ref_step sch (abs sch h) o).
+Proof. exact ReflectRefine.step_refines_pair. Qed.
+
+Theorem tidy_preserved : forall sch h o, tidyb sch h = true -> well_scopedb sch h o = true ->
+  tidyb sch (fst (step sch h o)) = true.
+Proof. exact ReflectRefine.tidy_preserved. Qed.
+
+(* every finite history (the operations executed, in order; scoped_from checks well_scopedb at each step on the heap
+   reached): the reference model computes the abstraction of every result and of the final heap *)
+Theorem history_refines : forall sch, wf sch = true -> forall os, scoped_from sch [] os = true ->
+  fst (ref_exec sch os) = abs sch (fst (exec sch os)) /\
+  snd (ref_exec sch os) = map abs_out (snd (exec sch os)) /\
+  tidyb sch (fst (exec sch os)) = true.
+Proof. exact ReflectRefine.history_refines_eq. Qed.
+
+(* the same for Reflect.run, where each operation is drawn from the earlier results by an arbitrary function *)
+Theorem run_refines : forall sch, wf sch = true -> forall ops, scoped_from sch [] (trace sch ops) = true ->
+  fst (ref_exec sch (trace sch ops)) = abs sch (fst (run sch ops)) /\
+  snd (ref_exec sch (trace sch ops)) = map abs_out (snd (run sch ops)) /\
+  tidyb sch (fst (run sch ops)) = true.
+Proof. exact ReflectRefine.run_refines_eq. Qed.
+
 (* ---- non-vacuity: a concrete schema and history (the model computes) -------------------------------------------- *)
 (* message 0: x int32; oneof { a string; b message 0 }; r repeated int64; m map<string,int32>; c message 0 *)
 (* new; Set a := ""; Set b := fresh message; Clear a (not the member set: nothing happens); WhichOneof; Has a; Has b;
@@ -233,4 +266,32 @@ Example ex_history :
            (fun o => OLLen (nth 10 o PPanic)) ])
   = [ PMsg 0 (Some 0); PUnit; PMsg 0 (Some 1); PUnit; PUnit; PField (Some 2); PBool false; PBool true;
       PList (TScalar KInt64) (RField 0 3); PUnit; PList (TScalar KInt64) (RField 0 3); PScalar (VInt 1) ].
+Proof. vm_compute. split; reflexivity. Qed.
+
+(* the history of ex_history is well scoped, and the reference model gives the normalised results *)
+Example ex_refines :
+  let ex_sch : schema :=
+  [ {| m_fields := [ {| f_num := 1; f_ty := TScalar KInt32; f_shape := Singular |};
+                     {| f_num := 2; f_ty := TScalar KString; f_shape := Member 0 |};
+                     {| f_num := 3; f_ty := TMsg 0; f_shape := Member 0 |};
+                     {| f_num := 4; f_ty := TScalar KInt64; f_shape := Rep true |};
+                     {| f_num := 5; f_ty := TScalar KInt32; f_shape := MapOf KString |};
+                     {| f_num := 6; f_ty := TMsg 0; f_shape := Singular |} ];
+       m_oneofs := 1; m_impl := Pulsar |} ] in
+  let os := [ ONew 0;
+              OSet (PMsg 0 (Some 0)) 1 (PScalar (VBytes []));
+              ONewField (PMsg 0 (Some 0)) 2;
+              OSet (PMsg 0 (Some 0)) 2 (PMsg 0 (Some 1));
+              OClear (PMsg 0 (Some 0)) 1;
+              OWhichOneof (PMsg 0 (Some 0)) 0;
+              OSet (PMsg 0 (Some 0)) 0 (PScalar (VInt 0));
+              OHas (PMsg 0 (Some 0)) 0;
+              OMutable (PMsg 0 (Some 0)) 3;
+              OLAppend (PList (TScalar KInt64) (RField 0 3)) (PScalar (VInt 7));
+              ORange (PMsg 0 (Some 0)) ] in
+  scoped_from ex_sch [] os = true /\
+  snd (ref_exec ex_sch os) =
+  [ AOMsg 0 (Some 0); AOUnit; AOMsg 0 (Some 1); AOUnit; AOUnit; AOField (Some 2); AOUnit; AOBool false;
+    AOList (TScalar KInt64) (RField 0 3); AOUnit;
+    AORange [ (2, AOMsg 0 (Some 1)); (3, AOList (TScalar KInt64) (RField 0 3)) ] ].
 Proof. vm_compute. split; reflexivity. Qed.
